@@ -26,6 +26,7 @@ func init() {
 			{ID: "C05.R5", Text: "Metadata.Save backends: each error-returning primitive's error reaches the result; couchbase backend writes iff dirtyOffsets[vbID] with the Checkpoint.Timeout context and returns eg.Wait()", Run: c05r5},
 			{ID: "C05.R6", Text: "shutdown: whenever Checkpoint.Type == auto, Stream.Save precedes Stream.Close on every path of the function that closes the stream through the Stream interface", Run: c05r6},
 			{ID: "C05.R7", Text: "saves are serialised: the Metadata.Save call is dominated by a blocking Mutex.Lock whose Unlock is deferred immediately", Run: c05r7},
+			{ID: "C05.R9", Text: "what is stored is what was settled: a tracked position (sequence number and snapshot range) is never changed in place after it was acknowledged — markers and offsets are replaced, never mutated (same rule as C06.R3)", Run: c06r3},
 			{ID: "C05.R8", Text: "mark/clear atomicity: the sites that mark the dirty state and the site that clears it hold a common mutex", Run: c05r8},
 		},
 	})
